@@ -4,6 +4,7 @@ package main
 
 import (
 	"fmt"
+	"go/types"
 	"strings"
 
 	"golang.org/x/tools/go/ssa"
@@ -202,13 +203,31 @@ func ruleStoreParams(r *Run, rule string, k *storeKind) {
 		r.Unres(rule, "params:closure", "segment closure not found")
 		return
 	}
+	recvT := k.Execute.Signature.Recv().Type()
 	set := func(fn *ssa.Function) map[string]bool {
 		out := map[string]bool{}
-		allInstrs(fn, func(in ssa.Instruction) {
-			if call, ok := in.(*ssa.Call); ok && call.Call.IsInvoke() && strings.HasPrefix(call.Call.Method.Name(), "With") {
-				out[call.Call.Method.Name()] = true
+		seen := map[*ssa.Function]bool{}
+		var visit func(fn *ssa.Function, depth int)
+		visit = func(fn *ssa.Function, depth int) {
+			if seen[fn] || depth > 2 {
+				return
 			}
-		})
+			seen[fn] = true
+			allInstrs(fn, func(in ssa.Instruction) {
+				call, ok := in.(*ssa.Call)
+				if !ok {
+					return
+				}
+				if call.Call.IsInvoke() && strings.HasPrefix(call.Call.Method.Name(), "With") {
+					out[call.Call.Method.Name()] = true
+				}
+				// the builder chain extracted into a method of the same search object (s.searchOn(index))
+				if g := staticCallee(call.Common()); g != nil && g.Pkg == w.SPkg && g.Signature.Recv() != nil && types.Identical(g.Signature.Recv().Type(), recvT) {
+					visit(g, depth+1)
+				}
+			})
+		}
+		visit(fn, 0)
 		return out
 	}
 	a, b := set(k.Execute), set(seg)
